@@ -150,12 +150,16 @@ class StatelessClassRule(BaseLintRule):  # thailint: ignore[srp,dry]
         Returns:
             StatelessClassConfig instance
         """
-        if not hasattr(context, "config") or context.config is None:
-            return StatelessClassConfig()
-
-        config_dict = context.config
+        config_dict = getattr(context, "config", None)
         if not isinstance(config_dict, dict):
-            return StatelessClassConfig()
+            # The orchestrator passes the loaded configuration as context.metadata
+            metadata = getattr(context, "metadata", None)
+            if not isinstance(metadata, dict):
+                return StatelessClassConfig()
+            linter_config = metadata.get("stateless_class", metadata.get("stateless-class"))
+            if not isinstance(linter_config, dict):
+                return StatelessClassConfig()
+            return StatelessClassConfig.from_dict(linter_config)
 
         # Check for stateless-class specific config
         linter_config = config_dict.get("stateless-class", config_dict)
